@@ -6,7 +6,9 @@
 (* EVERY ordered pair of nodes, intercepts, positive variances, observed   *)
 (* rows, a small data set) and a DAG: every DAG over the pattern's nodes   *)
 (* (mode "all") or the pattern's own edge list.  An edge p -> c of the DAG *)
-(* carries the weight w[c][p].  Next asks one question about the model:    *)
+(* carries the weight w[c][p].  Build evaluates the structural equations   *)
+(* once (mean by recursive substitution, covariance (I-B)^-T Omega         *)
+(* (I-B)^-1) into mdl; then Next asks one question about the model:        *)
 (*   DoJoint     mean and covariance of the joint Gaussian                 *)
 (*   DoPredict   for EVERY non-empty proper subset A of missing variables: *)
 (*               conditional mean (per observed row) and covariance of A   *)
@@ -33,6 +35,7 @@ Pas(v) == OrdOf(P.nodes, PaOf(E, v))
 
 Init == /\ pi \in 1..Len(Pats)
         /\ E \in EdgeSets(Pats[pi])
+        /\ \A v \in SeqSet(Pats[pi].nodes) : QPos(Pats[pi].var[v])        \* the property quantifies over positive variances
         /\ mdl = [built |-> FALSE]
         /\ out = [kind |-> "none"]
 
